@@ -34,6 +34,8 @@ type AcmeData struct {
 // AcmeStorages ...
 type AcmeStorages struct {
 	items, itemsAdd, itemsDel map[string]*AcmeCerts
+	// full is true between a Clear() and the next Commit()
+	full bool
 }
 
 // AcmeCerts ...
